@@ -24,10 +24,12 @@ theorem C17_matrix :
 theorem C17_groups_exist : kinds.all (fun k => (Gen.Vocab.groups.lookup k).isSome) = true := by
   decide +kernel
 
-/-- the tracer refuses anything that is not a tweezer kernel (observed on one method of
-each kind) -/
+/-- the tracer refuses anything that is not a tweezer kernel or a closure (observed on one method of each kind: a
+tweezer kernel, a move kernel, an atom-level kernel, a plain kirin function, a closure that captures a value and closures
+that capture nothing, folded and unfolded) -/
 theorem C17_tracer_guard :
-    Gen.Vocab.tracerGuard = [("tweezer", true), ("move", false), ("kernel", false)] := by decide
+    Gen.Vocab.tracerGuard = [("tweezer", true), ("move", false), ("kernel", false), ("plain_function", false),
+      ("closure_capturing", true), ("closure_capture_free", true), ("closure_capture_free_nofold", true)] := by decide
 
 /-- in words, for membership: a wrapper listed in the table is accepted exactly where documented -/
 theorem C17_matrix_mem (w : String × String × String × String) (hw : w ∈ Gen.Vocab.wrappers)
